@@ -78,6 +78,16 @@ class LabeledUnicast(NLRI):
         return nlri_list
 
     @classmethod
+    def construct_mpls_label_stack(cls, labels):
+        # RFC 8277: the last label of the stack carries the bottom-of-stack
+        # bit, label 0 (explicit null) included
+        data = b''
+        for label in labels[:-1]:
+            data += struct.pack('!L', label << 4)[1:]
+        data += struct.pack('!L', (labels[-1] << 4 | 1))[1:]
+        return data
+
+    @classmethod
     def construct(cls, nlri_list, flag='advertise'):
         nlri_list_hex = b''
         for nlri in nlri_list:
